@@ -109,6 +109,11 @@ pub enum Op {
     /// ... until a signing session takes place (and the signer stays
     /// available from then on).
     SignerSession,
+    /// The process of instance `inst` dies before the k-th storage or
+    /// file-system mutation it makes during the next stretch of background
+    /// work (its own tasks, or serving a request of the other instance);
+    /// it is started again from its directory right away.
+    CrashNext { inst: usize, k: u64 },
     /// Explicit RRDP session reset.
     RrdpSessionReset { inst: usize },
     /// The publication server operator removes the CA's publisher.
@@ -142,7 +147,7 @@ impl Op {
             | Op::Partition { inst } => vec![*inst],
             Op::SignerOffline | Op::SignerSession => vec![0],
             Op::Heal { .. } | Op::Advance { .. } | Op::Pump
-            | Op::NetCut | Op::NetRestore => vec![],
+            | Op::NetCut | Op::NetRestore | Op::CrashNext { .. } => vec![],
         }
     }
 
@@ -173,6 +178,7 @@ impl Op {
             Op::Heal { .. } => "heal",
             Op::NetCut => "net_cut",
             Op::NetRestore => "net_restore",
+            Op::CrashNext { .. } => "crash_next",
             Op::SignerOffline => "signer_offline",
             Op::SignerSession => "signer_session",
             Op::RrdpSessionReset { .. } => "rrdp_session_reset",
@@ -220,6 +226,8 @@ pub struct GenCfg {
     /// Weight of the trust anchor signer going off-line / a signing
     /// session taking place.
     pub w_signer: u64,
+    /// Weight of a process crash during the next background work.
+    pub w_crash: u64,
     pub pump_pct: u64,
 }
 
@@ -248,6 +256,7 @@ impl Default for GenCfg {
             w_class_map: 0,
             w_partition: 0,
             w_signer: 0,
+            w_crash: 0,
             pump_pct: 55,
         }
     }
@@ -403,8 +412,18 @@ pub fn generate(rng: &mut Rng, ctx: &GenCtx) -> Op {
 
     let total = cfg.w_entitlement + cfg.w_config + cfg.w_removal
         + cfg.w_keyroll + cfg.w_maintenance + cfg.w_clock + cfg.w_rrdp
-        + cfg.w_status + cfg.w_partition + cfg.w_signer + 10;
+        + cfg.w_status + cfg.w_partition + cfg.w_signer + cfg.w_crash + 10;
     let mut pick = rng.below(total);
+
+    if pick < cfg.w_crash {
+        let inst = rng.usize(ctx.n_insts);
+        // Half of the crashes early in the background work that follows,
+        // the rest anywhere in it.
+        let k = if rng.chance(1, 2) { 1 + rng.below(8) }
+            else { 1 + rng.below(80) };
+        return Op::CrashNext { inst, k }
+    }
+    pick -= cfg.w_crash;
 
     if pick < cfg.w_signer {
         return if ctx.signer_offline { Op::SignerSession }
